@@ -29,6 +29,14 @@ def gif(n):
     return Image.open(buf)
 
 
+SIZES = {}  # rendered sizes seen at a next() of the caching run -> hash(rendered_size), the cache's key
+
+
+def hash_box_injective():
+    """hash() separates every size of a 400 x 200 box (what ImageIterator's size hash is assumed to do)"""
+    return len({hash((w, h)) for w in range(1, 401) for h in range(1, 201)}) == 400 * 200
+
+
 def run_one(case, cached):
     import os
     from term_image.image import common as _common
@@ -55,6 +63,9 @@ def run_one(case, cached):
                 try:
                     fr = next(it)
                     started = True
+                    if cached is not False:
+                        rs = image.rendered_size
+                        SIZES[(int(rs[0]), int(rs[1]))] = hash(rs)
                     out.append(["F", hashlib.sha1(fr.encode()).hexdigest()[:16], image.tell(), it.loop_no])
                 except StopIteration:
                     out.append(["S", it.loop_no])
@@ -80,12 +91,16 @@ def run_one(case, cached):
 
 
 def run_case(case):
+    SIZES.clear()
     a = run_one(case, case["cached"])
     b = run_one(case, False)
     first = next((i for i, (x, y) in enumerate(zip(a, b)) if x != y), None)
     return {"equal": a == b, "first_diff": first, "frames": sum(1 for x in a if x[0] == "F"),
-            "cached": a if a != b else None, "uncached": b if a != b else None}
+            "cached": a if a != b else None, "uncached": b if a != b else None,
+            "sizes": [[w, h, hv] for (w, h), hv in sorted(SIZES.items())], "hash_box_injective": BOX_OK}
 
+
+BOX_OK = hash_box_injective()
 
 if __name__ == "__main__":
     implenv.write_results([run_case(c) for c in implenv.read_cases()])
